@@ -20,6 +20,8 @@ struct ZoneSpec {
   std::string state = "healthy";  // healthy | absent | badmagic | trunc | eio
   int null_times = 0;     // transient: first N factory calls give no source
   int eio_times = 0;      // transient: first N sources fail with eio at half length
+  int throw_times = 0;    // transient: first N factory calls exit by exception
+  int read_throw_times = 0;  // transient: first N sources throw from their second Read
 };
 
 enum OpKind : uint8_t { O_LOAD, O_UTC, O_FIXED, O_LOCAL, O_DEFAULT, O_TAKE, O_EQ, O_QUERY, O_SET_STATE, O_BULK, O_NKINDS };
@@ -41,6 +43,7 @@ struct ConcCase {
   std::vector<ZoneSpec> zones;
   int tz_env_zone = -2;            // -2: TZ unset, -1: TZ="" ; >=0: TZ names that zone (with ':' prefix if tz_env_colon)
   bool tz_env_colon = false;
+  bool tz_env_via_localtime = false;   // TZ is "localtime" (with ':' if tz_env_colon) and $LOCALTIME names the zone
   std::vector<std::vector<Op>> tasks;
   SchedConfig sched;
   int factory_yields = 1;
